@@ -373,9 +373,11 @@ func (b *baseExecutor) buildLockKey(records *types.RecordImage, meta types.Table
 			lockKeys.WriteString(",")
 		}
 		pkSplitIndex := 0
-		for _, column := range row.Columns {
+		// key components in the table's key order, whatever the column order of
+		// the image is: the same row must always yield the same lock key
+		for _, key := range keys {
 			var hasKeyColumn bool
-			for _, key := range keys {
+			for _, column := range row.Columns {
 				if column.ColumnName == key {
 					hasKeyColumn = true
 					if pkSplitIndex > 0 {
